@@ -7,6 +7,8 @@ import (
 	"strconv"
 	"time"
 
+	cfgbase "github.com/metrico/cloki-config/config"
+	wmodel "github.com/metrico/qryn/writer/model"
 	"github.com/metrico/qryn/writer/utils/numbercache"
 	"github.com/metrico/qryn/writer/utils/unmarshal"
 
@@ -111,8 +113,29 @@ type KCase struct {
 	S2    string `json:"s2"`
 }
 
+// clusterCache: what a cache view of a node with a ClusterName answers (Has after CheckAndSet, second CheckAndSet)
+// next to the view of a single node, on one shared cache built like the production one.
+func clusterCache() map[string]bool {
+	c := numbercache.NewCache[uint64](time.Hour, func(v uint64) []byte { return []byte(strconv.FormatUint(v, 16)) },
+		map[string]*wmodel.DataDatabasesMap{
+			"single":  {ClokiBaseDataBase: cfgbase.ClokiBaseDataBase{Node: "single"}},
+			"cluster": {ClokiBaseDataBase: cfgbase.ClokiBaseDataBase{Node: "cluster", ClusterName: "c1"}},
+		})
+	defer c.Stop()
+	res := map[string]bool{}
+	for _, n := range []string{"single", "cluster"} {
+		v := c.DB(n)
+		res[n+":first_checkandset"] = v.CheckAndSet(42)
+		res[n+":has_after_set"] = v.Has(42)
+		res[n+":second_checkandset"] = v.CheckAndSet(42)
+		res[n+":has_other"] = v.Has(43)
+	}
+	return res
+}
+
 func runKeys(f *hx.Flags, out *hx.Out) {
 	setup()
+	out.Put(map[string]interface{}{"id": -1, "class": "cluster-cache", "k1": "0", "k2": "0", "s1": "", "s2": "", "flags": clusterCache()})
 	cache := prodCache()
 	ser := func(k uint64) string { return hx.Hex(string(cache.VerifC04Serialize(k))) }
 	id := 0
